@@ -288,7 +288,7 @@ func play(h handshake, budget, failRd, failWr, cancelAt int) hsResult {
 		if out.s != nil {
 			res.ready = out.s.State()&xmpp.Ready != 0
 		}
-	case <-time.After(5 * time.Second):
+	case <-time.After(3 * time.Second):
 		res.outcome = "STALL"
 	}
 	d.end()
